@@ -61,9 +61,12 @@ def build_pair(tape, opts, max_msgs=6, apis=("deferred", "delegate"),
     api_a = tape.pick(apis, "api_a")
     api_b = tape.pick(apis, "api_b")
     lazy_a = lazy_ok and api_a == "deferred" and tape.choose(4, "lazy") == 3
+    dil = bool(opts.get("dilate"))
     a = w.add_client("A", api=api_a, versions={"v": "A"},
-                     lazy_messages=lazy_a)
-    b = w.add_client("B", api=api_b, versions={"v": "B"})
+                     lazy_messages=lazy_a, **({"dilation": True} if dil
+                                              else {}))
+    b = w.add_client("B", api=api_b, versions={"v": "B"},
+                     **({"dilation": True} if dil else {}))
     if mode == "set_set":
         code = fixed_code(tape)
         ca, cb = [("set_code", code)], [("set_code", code)]
@@ -74,6 +77,14 @@ def build_pair(tape, opts, max_msgs=6, apis=("deferred", "delegate"),
     nb = tape.choose(max_msgs + 1, "nb")
     sa = [("send", gen_payload(tape, i, "A")) for i in range(na)]
     sb = [("send", gen_payload(tape, i, "B")) for i in range(nb)]
+    if dil:
+        # both sides also dilate: the numbered dilate-N control messages share
+        # the mailbox with the numbered application phases
+        w.sim.no_advance_while_connecting = True
+        sa = interleave(tape, sa, [("dilate", {"no_listen":
+                                               tape.choose(3, "dnl") == 0})])
+        sb = interleave(tape, sb, [("dilate", {"no_listen":
+                                               tape.choose(3, "dnl") == 0})])
     a.script = interleave(tape, ca, sa)
     b.script = interleave(tape, cb, sb)
     w.mode = mode
